@@ -4,6 +4,7 @@ package chainsim
 // once), C18 (send), C36 (gov). Written in the direction the properties state.
 
 import (
+	"sort"
 	"fmt"
 	"strings"
 	"time"
@@ -416,6 +417,19 @@ func (s *Sim) checkGov(t *txCtx, changed bool) {
 		s.res.Probe("gov_by_owner")
 		if rec.Step.Kind == "gov_upgrade" {
 			s.checkUpgradeTx(t)
+		}
+		if rec.Step.Kind == "gov_param" && aclKey == "gov/upgrade" {
+			// (C37) the upgrade record written through the parameter-change message
+			s.res.Probe("upgrade_record_written_by_parameter_change")
+			var stored govTypes.Upgrade
+			if raw, ok := t.va.Params["gov/upgrade"]; ok && govTypes.ModuleCdc.UnmarshalJSON([]byte(raw), &stored) == nil {
+				got, syntaxOK, dup := parseFeatures(stored.Features)
+				if !syntaxOK || dup || !sort.StringsAreSorted(stored.Features) {
+					s.violate("C37", "stored-feature-list-not-canonical", "stored-by-parameter-change", fmt.Sprintf("height %d: stored feature list %v (duplicates or unsorted)", t.h, stored.Features))
+				} else if !mapsEqual(got, s.schedule()) {
+					s.violate("C37", "stored-schedule-vs-scheduled", "stored-by-parameter-change", fmt.Sprintf("height %d: a parameter change of gov/upgrade (tx id %d, code %d) left the stored schedule at %v; scheduled so far %v", t.h, rec.Step.ID, t.res.Code, stored.Features, s.schedule()))
+				}
+			}
 		}
 	case "gov_dao":
 		owner := s.daoOwner(t.vb)
